@@ -841,4 +841,88 @@ theorem step_rejected_iff {s : State} (h : Inv s) (hp : EszPos s) {op : Op} (hw 
     · split at h' <;> cases h'
     · cases h'
 
+/-! ### what an allocation initialised from a memory holds -/
+
+theorem byteAt_congr {s s' : State} (h : s'.bufs = s.bufs) (q : View) (j : Nat) : byteAt s' q j = byteAt s q j := by
+  unfold byteAt; rw [h]
+
+/-- a successful non-empty `malloc(n, dtype, src)` from an initialised, non-empty source: the new
+    root view sits alone in a fresh buffer, holds the first bytes of the source, and no byte of any
+    older buffer changed -/
+theorem mallocFromExpr_spec {s s2 : State} (h : Inv s) {n : Int} {e m src : Nat} (he : 0 < e) {sv : View}
+    (hsv : view? s src = some sv) (hz : sv.size ≠ 0)
+    (hmf : mallocFromExpr s n e src = .val s2 (some m)) :
+    m = s.mems.length ∧ s2.mems = s.mems ++ [rootView s n e] ∧ 0 ≤ n * (e : Int) ∧
+    (∀ j, j < (n * (e : Int)).toNat → byteAt s2 (rootView s n e) j = byteAt s sv j) ∧
+    (∀ (q : View), q.buf < s.bufs.length → ∀ j, byteAt s2 q j = byteAt s q j) := by
+  have hg := mallocExpr_good h n e none
+  unfold mallocFromExpr at hmf
+  cases hme : mallocExpr s n e none with
+  | trap => rw [hme] at hmf; cases hmf
+  | err er => rw [hme] at hmf; cases hmf
+  | val s1 om =>
+    rw [hme] at hmf hg
+    cases om with
+    | none => cases hmf
+    | some m1 =>
+      simp only [] at hmf
+      obtain ⟨hn0, hnn, hm, nb, hnb, _, hs1⟩ := mallocExpr_val hme
+      have hle : BufLe s s1 := by rw [hs1]; exact bufLe_pushBuf s nb
+      have hdv : s1.mems[m1]? = some (rootView s n e) := by rw [hs1, hm]; simp [pushMem]
+      have hbufs : s1.bufs = s.bufs ++ [nb] := by rw [hs1]
+      have hold : ∀ (q : View), q.buf < s.bufs.length → ∀ j, byteAt s1 q j = byteAt s q j := by
+        intro q hq j
+        unfold byteAt
+        rw [hbufs, List.getElem?_append_left hq]
+      rw [hdv, hsv] at hmf
+      simp only [] at hmf
+      rw [if_neg hz] at hmf
+      cases hcg : copyGuards (rootView s n e) (rootView s n e) sv (-1) 0 0 with
+      | error er => rw [hcg] at hmf; cases hmf
+      | ok t =>
+        obtain ⟨bytes, dOff, sOff⟩ := t
+        rw [hcg] at hmf
+        simp only [] at hmf
+        obtain ⟨e1, e2, e3, g1, g2⟩ := copyGuards_ok hcg
+        have hcb := countBytes_rootView s he hnn
+        have hb : bytes = (n * (e : Int)).toNat := by omega
+        have hd0 : dOff = 0 := by simp only [Int.mul_zero] at e2; omega
+        have hs0 : sOff = 0 := by simp only [Int.mul_zero] at e3; omega
+        subst hd0 hs0
+        have hvd := hg.1.views _ _ hdv
+        have hvs := (h.viewOk hsv).mono hle
+        have hc := copyBytes_inv hg.1 hvd hvs g1 g2
+        have hspec := fun q j => copyBytes_spec (s := s1) hvd hvs g1 g2 q j
+        cases hcbs : copyBytes s1 (rootView s n e) sv bytes 0 0 with
+        | mk s3 r =>
+          rw [hcbs] at hmf hc
+          have hr : r = .ok none := hc.2.1
+          subst hr
+          simp only [MRes.val.injEq, Option.some.injEq] at hmf
+          obtain ⟨hs3, hm3⟩ := hmf
+          subst hs3 hm3
+          have hs3 : s3 = (copyBytes s1 (rootView s n e) sv bytes 0 0).1 := by rw [hcbs]
+          obtain ⟨sb, hsb, hsl⟩ := h.viewOk hsv
+          have hsvlt : sv.buf < s.bufs.length := (List.getElem?_eq_some_iff.mp hsb).1
+          refine ⟨hm, ?_, hnn, ?_, ?_⟩
+          · rw [hc.2.2, hs1]; rfl
+          · intro j hj
+            rw [hs3, hspec]
+            have hcond : (rootView s n e).buf = (rootView s n e).buf ∧
+                (rootView s n e).off + 0 ≤ (rootView s n e).off + j ∧
+                (rootView s n e).off + j < (rootView s n e).off + 0 + bytes := ⟨rfl, by omega, by omega⟩
+            rw [if_pos hcond]
+            have : 0 + ((rootView s n e).off + j - ((rootView s n e).off + 0)) = j := by omega
+            rw [this]
+            exact hold sv hsvlt j
+          · intro q hq j
+            rw [hs3, hspec]
+            have : ¬ (q.buf = (rootView s n e).buf ∧ (rootView s n e).off + 0 ≤ q.off + j ∧
+                q.off + j < (rootView s n e).off + 0 + bytes) := by
+              intro hx
+              have : q.buf = s.bufs.length := hx.1
+              omega
+            rw [if_neg this]
+            exact hold q hq j
+
 end Occa.Mem
